@@ -1,6 +1,11 @@
 import ZvbiModel.Demux.LemmasFeed
 import ZvbiModel.Demux.LemmasLock
+import ZvbiModel.Demux.LemmasForget
+import ZvbiModel.Demux.LemmasCor
+import ZvbiModel.Mux.Spec
 import ZvbiModel.Demux.Ts
+import ZvbiModel.Demux.LemmasTs
+import ZvbiModel.Demux.LemmasTsSafe
 /-!
 # C07 - DVB demux output depends only on the byte stream and recovers after damage
 
@@ -166,11 +171,12 @@ current tree looks like.  Witness packets are built in `Demux/Spec.lean` (`livel
 `vbi_dvb_demux_cor` never consumes it: three calls in a row return 0 lines with `*buffer_left`
 unchanged (and the state repeats). -/
 theorem cor_livelock_counterexample :
-    (pesCorDrain 8 SrcCfg.unrepaired 0 St.init livelockPacket 0 64).err = some (.assertFail "cor_livelock") := by
+    (pesCorDrain 8 SrcCfg.unrepaired 0 St.init livelockPacket 0 64).stalled = true := by
   decide +kernel
 
 /-- with the repair the same packet is consumed -/
-example : (pesCorDrain 8 SrcCfg.repaired 0 St.init livelockPacket 0 64).err = none := by decide +kernel
+example : (pesCorDrain 8 SrcCfg.repaired 0 St.init livelockPacket 0 64).err = none ∧
+    (pesCorDrain 8 SrcCfg.repaired 0 St.init livelockPacket 0 64).stalled = false := by decide +kernel
 /-- through the callback interface the packet is consumed too (with a spurious empty frame first) -/
 example : (pesFeed SrcCfg.repaired St.init livelockPacket).err = none ∧
     (pesFeed SrcCfg.repaired St.init livelockPacket).frames.length = 1 := by decide +kernel
@@ -191,14 +197,132 @@ theorem pes_lockup_reachable : Deaf (pesFeed SrcCfg.unrepaired St.init overflowP
   unfold Deaf Full
   decide +kernel
 
-/-! ## Full statements not proved (kept visible; tied to the code by the oracle only) -/
+/-! ## Recovery (repaired tree) -/
 
-/-- feed_split_invariant for the TS path (`demux_ts_packet`): modelled in `Demux/Ts.lean`, compared
-with the C code on every run, not proved. -/
-def ts_feed_split_invariant_full : Prop :=
-  ∀ (pid : Nat) (hist : List Bytes) (a b : Bytes),
-    let s := hist.foldl (fun s c => (tsFeed s c).st) (TsSt.init pid)
-    (tsFeed s (a ++ b)).frames = (tsFeed s a).frames ++ (tsFeed (tsFeed s a).st b).frames
+/-- **resync: a frame start forgets.** Two demultiplexers at the same stream position (same skip,
+same lookahead) that are both at a frame start (`new_frame`) - whatever stale lines, line counters,
+frame PTS they hold, and whatever packet PTS as long as no header is pending - deliver the same
+frames on *every* continuation of the stream.  `new_frame` is what every discard sets, so this is
+the statement that a discard leaves no trace. -/
+theorem resync_frame_start_forgets (c1 c2 : Core) (L : Bytes)
+    (hs : c1.skip = c2.skip) (hl : c1.lookahead = c2.lookahead) (h48 : 48 ≤ c1.lookahead) (h65 : c1.lookahead ≤ 65495)
+    (h1 : c1.fs.newFrame = true) (h2 : c2.fs.newFrame = true)
+    (hp : c1.lookahead > 48 → c1.fs.packetPts = c2.fs.packetPts) :
+    (arun cfg c1 L).frames = (arun cfg c2 L).frames :=
+  (arun_forget (cfg := cfg) L c1 c2 hs hl h48 h65 (Or.inr ⟨h1, h2, hp⟩)).1
+
+/-- a data unit error in the PES path discards the frame (since 7c6e61c) -/
+theorem error_discards (hflag : cfg.pesDiscards = true) (fs : FS) : (pesErrFs cfg fs).newFrame = true := by
+  simp [pesErrFs, hflag]
+
+/-- a context at a frame start in scan mode behaves like a freshly reset one at the same position -/
+theorem frame_start_like_reset (s : St) (h1 : s.fs.newFrame = true) (h2 : s.pw.lookahead = 48) (L : Bytes) :
+    (arun cfg s.core (s.pending ++ L)).frames = (arun cfg { s.core with fs := {} } (s.pending ++ L)).frames := by
+  have hf : FsForget s.core.lookahead s.core.fs ({ s.core with fs := {} } : Core).fs :=
+    Or.inr ⟨h1, rfl, fun h => by simp only [St.core] at h; omega⟩
+  exact (arun_forget (cfg := cfg) (s.pending ++ L) s.core { s.core with fs := {} } rfl rfl
+    (by simp only [St.core]; omega) (by simp only [St.core]; omega) hf).1
+
+/-- the context after the packet that used to lock the demultiplexer up (70 line units) -/
+def afterOverflow : St := (pesFeed SrcCfg.repaired St.init overflowPacket).st
+
+/-- **pes_recovers_after_overflow.** On the repaired tree `overflowPacket` leaves the demultiplexer at
+a frame start, and from there it behaves on every continuation `L` exactly like a freshly reset
+demultiplexer at the same stream position: no absorbing state any more. -/
+theorem pes_recovers_after_overflow :
+    afterOverflow.fs.newFrame = true ∧
+    ∀ L, (arun SrcCfg.repaired afterOverflow.core (afterOverflow.pending ++ L)).frames
+       = (arun SrcCfg.repaired { afterOverflow.core with fs := {} } (afterOverflow.pending ++ L)).frames := by
+  have h1 : afterOverflow.fs.newFrame = true := by decide +kernel
+  have h2 : afterOverflow.pw.lookahead = 48 := by decide +kernel
+  exact ⟨h1, frame_start_like_reset SrcCfg.repaired afterOverflow h1 h2⟩
+
+/-- ... and concretely: the frame of the next intact packet is delivered (when the one after it begins) -/
+example : ((pesFeeds SrcCfg.repaired St.init [overflowPacket, linePacket 3 7 0x55, linePacket 4 7 0x66]).frames.map
+    fun f => (f.pts, f.lines.map fun l => (l.id, l.line))) = [(3, [(3, 7)])] := by decide +kernel
+/-- the same three packets on the unrepaired tree: nothing -/
+example : (pesFeeds SrcCfg.unrepaired St.init [overflowPacket, linePacket 3 7 0x55, linePacket 4 7 0x66]).frames = [] := by
+  decide +kernel
+
+/-- **the coroutine interface always makes progress (since 776a0f0).** With the `continue` for a
+frame without lines in place, a `vbi_dvb_demux_cor` call from *any* context that does not fault either
+returns a frame or exhausts the buffer; hence the documented caller loop
+`while (left > 0) vbi_dvb_demux_cor (...)` never stalls - the positive counterpart of
+`cor_livelock_counterexample`, for every context, buffer and `max_lines >= 1`. -/
+theorem cor_always_progresses (hse : cfg.corSkipsEmpty = true) (maxLines : Nat) (hm : 1 ≤ maxLines)
+    (fuel stall : Nat) (s : St) (buf : Bytes) (si : Nat) :
+    (pesCorDrain fuel cfg stall s buf si maxLines).stalled = false :=
+  pesCorDrain_no_livelock cfg hse maxLines hm fuel stall s buf si
+
+/-! ## TS path (`demux_ts_packet`: sync search, 188-byte alignment, PID filter, continuity, PES reassembly) -/
+
+/-- the TS demux context reached from a new demultiplexer by a history of feed calls -/
+def tsAfter (pid : Nat) (hist : List Bytes) : TsSt := hist.foldl (fun s c => (tsFeed s c).st) (TsSt.init pid)
+
+/-- the TS invariant (ts_buffer fill + lookahead = 10 in sync / 197 searching, lookahead >= 1,
+consume <= ts_pes_todo, PES buffer bounds) holds after every history of feed calls -/
+theorem ts_inv_reachable (pid : Nat) (hist : List Bytes) : TsInv (tsAfter pid hist) := by
+  unfold tsAfter
+  have : ∀ (s : TsSt), TsInv s → TsInv (hist.foldl (fun s c => (tsFeed s c).st) s) := by
+    induction hist with
+    | nil => intro s h; exact h
+    | cons c cs ih => intro s h; exact ih _ (tsFeed_safe s c h).2
+  exact this _ (TsInv_init pid)
+
+/-- **garbage_safe, TS path.** Whatever bytes are fed to a TS demultiplexer in whatever pieces: no
+access outside `ts_buffer` / `pes_buffer` / the caller's buffer, no failed `assert`, no unsigned
+wrap-around of the lookahead / todo counters, and the loop terminates (every iteration consumes at
+least one byte or returns). -/
+theorem ts_garbage_safe (pid : Nat) (hist : List Bytes) (buf : Bytes) :
+    (tsFeed (tsAfter pid hist) buf).err = none :=
+  (tsFeed_safe _ buf (ts_inv_reachable pid hist)).1
+
+/-- **ts_feed_split_invariant (TS path, full).** For every reachable TS context, feeding `a` and then
+`b` delivers exactly the frames of feeding `a ++ b` and ends in the *same context*: every
+input-consuming block of the loop body (payload copy, skip, look-ahead copy into `ts_buffer`) is a
+resumable counter, and sync search / header evaluation / continuity never read input. -/
+theorem ts_feed_split_invariant (pid : Nat) (hist : List Bytes) (a b : Bytes) :
+    let s := tsAfter pid hist
+    (tsFeed s (a ++ b)).frames = (tsFeed s a).frames ++ (tsFeed (tsFeed s a).st b).frames ∧
+    (tsFeed s (a ++ b)).st = (tsFeed (tsFeed s a).st b).st := by
+  intro s
+  have hi := ts_inv_reachable pid hist
+  have h1 := tsFeed_safe s a hi
+  have h2 := tsFeed_safe (tsFeed s a).st b h1.2
+  have h3 := tsFeed_safe s (a ++ b) hi
+  exact tsFeed_split s a b h1.1 h2.1 h3.1
+
+example : (tsFeed (TsSt.init 256) (List.replicate 150 0x47 ++ List.replicate 250 0x47)).st
+    = (tsFeed (tsFeed (TsSt.init 256) (List.replicate 150 0x47)).st (List.replicate 250 0x47)).st :=
+  (ts_feed_split_invariant 256 [] (List.replicate 150 0x47) (List.replicate 250 0x47)).2
+
+/-! ## Joint with C06 (multiplexer model `ZvbiModel/Mux`) -/
+
+/-- a demultiplexed line seen as the multiplexer spec's `Line` (WSS: 14 bits) -/
+def toLine (l : Sliced) : Option Zvbi.Mux.EnParse.Line :=
+  if l.id = SL_TELETEXT_B then some ⟨.ttx, l.line, l.data⟩
+  else if l.id = SL_VPS then some ⟨.vps, l.line, l.data⟩
+  else if l.id = SL_WSS_625 then some ⟨.wss, l.line, [l.data.getD 0 0, l.data.getD 1 0 % 64]⟩
+  else if l.id = SL_CAPTION_625_F1 then some ⟨.cc, l.line, l.data⟩
+  else none
+
+/-- what the demultiplexer model delivers, in the vocabulary of the multiplexer spec -/
+def deliveredAs (fs : List FrameOut) : List (Nat × List Zvbi.Mux.EnParse.Line) :=
+  fs.map fun f => (f.pts, f.lines.filterMap toLine)
+
+/-- the two models compose on real bytes: four frames through C06's model of `vbi_dvb_mux_feed`
+(PES mode), the concatenated output through this model of `vbi_dvb_demux_feed`: the first three come
+back with PTS, services, lines and payload bits (the fourth is pending until a fifth begins) -/
+example :
+    let ops : List Zvbi.Mux.EnParse.Op :=
+      [.frame [⟨3, 7, List.replicate 56 0x15⟩, ⟨4, 16, List.replicate 56 0x31⟩, ⟨0x400, 23, List.replicate 56 0xF7⟩] 0xFFFFFFFF 5,
+       .frame [⟨3, 7, List.replicate 56 0x80⟩, ⟨3, 320, List.replicate 56 0x01⟩] 0xFFFFFFFF 6,
+       .frame [⟨3, 9, List.replicate 56 0x55⟩] 0xFFFFFFFF 7, .frame [⟨3, 8, List.replicate 56 0⟩] 0xFFFFFFFF 8]
+    let r := Zvbi.Mux.EnParse.run Zvbi.Mux.newPes ops
+    deliveredAs (frames SrcCfg.repaired r.2.1) = (r.2.2.take 3).map (fun s => (s.pts, s.lines)) := by
+  decide +kernel
+
+/-! ## Full statements not proved (kept visible; tied to the code by the oracle only) -/
 
 /-- cor_equals_feed: draining a buffer through the coroutine interface delivers the frames of
 `vbi_dvb_demux_feed` that have at least one line.  False on the unchanged tree (`skipEmpty = false`:
@@ -207,7 +331,7 @@ def cor_equals_feed_full : Prop :=
   ∀ (chunks : List Bytes) (buf : Bytes),
     let s := (pesFeeds cfg St.init chunks).st
     let r := pesCorDrain (2 * buf.length + 4) cfg 0 s buf 0 64
-    r.err = none ∧ r.frames = (pesFeed cfg s buf).frames.filter (fun f => !f.lines.isEmpty)
+    r.err = none ∧ r.stalled = false ∧ r.frames = (pesFeed cfg s buf).frames.filter (fun f => !f.lines.isEmpty)
 
 /-- resync, end to end: after arbitrary damage, once the demultiplexer is at a packet boundary of an
 intact stream, every frame but at most the first is delivered as sent.  Needs the sender spec of C06
@@ -215,5 +339,24 @@ intact stream, every frame but at most the first is delivered as sent.  Needs th
 def resync_full : Prop :=
   ∀ (c : Core) (L : Bytes), c.skip = 0 → c.lookahead = 48 →
     ∃ x y rest, (arun cfg c L).frames = x ++ rest ∧ frames cfg L = y ++ rest ∧ x.length ≤ 2 ∧ y.length ≤ 1
+
+/-- mux_demux_roundtrip_model (join of C06 and C07): for every history of multiplexer operations in
+which consecutive accepted frames are separable by the demultiplexer's rule (each frame has 1..64
+lines and begins on a line not beyond the previous frame's last line), this model of the
+demultiplexer returns, from the concatenated output of C06's model of the multiplexer, all accepted
+frames but the last with their PTS and lines.  Not proved: it needs (a) "EnParse accepts bs and the
+lines of every packet ascend => `frames bs` = the packets' lines" (a parser-equivalence theorem
+between `EnParse.pesStream` and `arun`), and (b) from C06 that accepted frames ascend and all output
+bytes are < 256.  The `example` above evaluates an instance in the kernel; the C06 `--demux` oracle
+and the C07 oracle judge it on the real code on every run. -/
+def mux_demux_roundtrip_model_full : Prop :=
+  ∀ (ops : List Zvbi.Mux.EnParse.Op), (∀ op ∈ ops, Zvbi.Mux.EnParse.Op.OK op) →
+    let r := Zvbi.Mux.EnParse.run Zvbi.Mux.newPes ops
+    (∀ s ∈ r.2.2, 1 ≤ s.lines.length ∧ s.lines.length ≤ 64) →
+    (∀ i, i + 1 < r.2.2.length →
+      ((r.2.2.getD (i + 1) ⟨0, 0, []⟩).lines.headD ⟨.ttx, 0, []⟩).line
+        ≤ ((r.2.2.getD i ⟨0, 0, []⟩).lines.getLastD ⟨.ttx, 0, []⟩).line ∧
+      ((r.2.2.getD (i + 1) ⟨0, 0, []⟩).lines.headD ⟨.ttx, 0, []⟩).line ≠ 0) →
+    deliveredAs (frames cfg r.2.1) = (r.2.2.dropLast).map (fun s => (s.pts, s.lines))
 
 end Zvbi.Props.C07
